@@ -1,6 +1,6 @@
 SPECIFICATION Spec
-CONSTANTS SmallIds = {1, 2} Widths = {1} MaxTok = 4
-  Texts <- CTexts HRs <- CHRs
+CONSTANTS SmallIds = {1, 2} Widths = {1} MaxTok = 3
+  Texts <- CTexts HRs <- CHRsQ
 CONSTRAINT Bound
 VIEW View
 INVARIANTS TypeOK Refines OnceOnly GoneNotified
